@@ -37,8 +37,46 @@ def edited_file(ctx):
                     ctx.fail("status", f"{name}: exit {o.exit} after the only test answered {verdict!r}", case)
 
 
+def time_limit_status(ctx):
+    """--max-run-time: a run that is cut short by the limit still reports what happened — status 0 exactly when a
+    candidate was accepted — for minimize, minimize-around and minimize-balanced, the limit expiring after k tests"""
+    import lithium.strategies as S
+
+    from .. import driver, scripts, strat
+    data = b"a\n{\nb\n}\nc\n(\nd\n)\ne\nf\n"
+    for name in ("minimize", "minimize-around", "minimize-balanced"):
+        for verdicts in ("aaaaaaaaaaaaaaaaaaaa", "arararararararararar", "arrrrrrrrrrrrrrrrrrr", "arrarrrrrrrrrrrrrrrr"):
+            for k in (1, 2, 3, 5, 8):
+                s = driver.Session(None, kind="line", from_file=data)
+                clk = strat.Clock([0] * k + [1000])
+                old = S.time
+                S.time = clk
+                try:
+                    def dec(j, disk, v=verdicts, clk=clk):
+                        clk.tests = j + 1
+                        return "a" if v[j % len(v)] == "a" else "r"
+                    s.test.decider = dec
+                    o = s.run(scripts.make_real_strategy(name, {"stop_after_time": 10}), "a")
+                finally:
+                    S.time = old
+                    s.close()
+                ctx.evaluations += 1
+                ctx.bump("time-limit-status")
+                calls = o.calls
+                case = dict(strategy=name, verdicts=verdicts, limit_passes_after_test=k, tests=len(calls), stream="time-limit")
+                if o.exit == "x":
+                    ctx.fail("status", f"{name}: run() raised {o.exc!r} under a time limit", case)
+                    continue
+                later = any(c["out"] == "a" for c in calls[1:])
+                if calls and calls[0]["out"] == "a" and (o.exit == "r0") != later:
+                    ctx.fail("status", f"{name}: the time limit passed after test {k}; exit {o.exit} but a later candidate was "
+                             f"{'' if later else 'never '}accepted ({len(calls)} tests ran)", case)
+
+
 def search(ctx):
+    time_limit_status(ctx)
     edited_file(ctx)
+    time_limit_status(ctx)
     drv.d1(ctx, WHICH, 6000, NT, do_model=False, allow_abort=False)
     drv.d2_random(ctx, WHICH, NT, 600, do_model=False, aborts=False)
 
@@ -46,6 +84,7 @@ def search(ctx):
 def run(ctx) -> int:
     proof = common.proof_stage(ctx.pid)
     edited_file(ctx)
+    time_limit_status(ctx)
     drv.d1(ctx, WHICH, 20000 if ctx.thorough else 5000, NT, allow_abort=False)
     drv.d2_random(ctx, WHICH, NT, 3000 if ctx.thorough else 1000, aborts=False)
     return common.decide(ctx, proof, RULE, search=search)
